@@ -70,7 +70,32 @@ CHECK_DEADLOCK FALSE
         os.remove(os.path.join(tlc.SPEC_DIR, name))
 
 
+def key_files(ctx):
+    """The per-directory signing key is 32 RANDOM bytes: any byte value may stand first or last (also ASCII whitespace).
+    A second DiskCache opened on the directory must read the same key back: retained entries stay hits."""
+    for key in (b" " + b"k" * 31, b"k" * 31 + b"\n", b"\t" + b"k" * 30 + b"\r", b"\x0b" + b"k" * 30 + b"\x0c", b"k" * 32):
+        d = tempfile.mkdtemp(prefix="hgverif-c09-key-")
+        try:
+            with open(os.path.join(d, ".hypergraph_hmac_key"), "wb") as f:
+                f.write(key)
+            c1 = DiskCache(d)
+            c1.set("entry", {"p": "value"})
+            c2 = DiskCache(d)
+            got = c2.get("entry")
+            with open(os.path.join(d, ".hypergraph_hmac_key"), "rb") as f:
+                after = f.read()
+            ctx.count()
+            ctx.traces()
+            wit = {"key_first_byte": key[0], "key_last_byte": key[-1], "second_instance_get": repr(got), "key_file_rewritten": after != key}
+            if got != (True, {"p": "value"}) or after != key:
+                ctx.violation("disk:retained-entry-lost-on-reopen", wit,
+                              f"a 32-byte key starting with {key[:1]!r} / ending with {key[-1:]!r}: the second DiskCache on the directory got {got} (key file rewritten: {after != key})")
+        finally:
+            shutil.rmtree(d, ignore_errors=True)
+
+
 def run_store(ctx, thorough, rng):
+    key_files(ctx)
     r = store_model(4 if thorough else 3)
     if r.violation or not r.ok:
         raise RuntimeError(f"CacheStore.tla violated {r.violation}")
@@ -207,6 +232,10 @@ def cross_graph_cases():
     a = IR.func("A", ["x"], ["p"], cache=True, fid="clo_obj_1", tname="CLO1", closure=["cell", "~newobj"])
     b = IR.func("A", ["x"], ["p"], cache=True, fid="clo_obj_2", tname="CLO2", closure=["cell", "~newobj"])
     out.append((IR.prog("top", [a]), IR.prog("top", [b]), [["x", "in.x"]], "same-source/captured-object-differs"))
+    # equal arguments, one of them holding the SAME inner object twice ([w, w]), the other two equal objects ([w1, w2])
+    a = IR.func("A", ["x"], ["p"], cache=True, fid="shared_alias", tname="AL")
+    b = IR.func("A", ["y"], ["p"], cache=True, fid="shared_alias", tname="AL", pmap=[["y", "x"]])
+    out.append((IR.prog("top", [a]), IR.prog("top", [b]), [["x", "[[w];[w]]"], ["y", "[[w];[w]]"]], "shared-func/aliased-inside-one-argument"))
     # ONE function behind a function node and behind an interrupt (same output name): its None is an ordinary value of
     # the function node, but makes the interrupt pause -- a cached {p: None} must not resolve the interrupt
     a = IR.func("A", ["x"], ["p"], cache=True, fid="shared_kind", tname="ID", fn="id")
@@ -338,6 +367,8 @@ def run_engine(ctx, thorough, rng):
         for seq in seqs:
             j = gen.job(len(jobs) + 1, prog, prov)
             j["alt"] = alt
+            if "aliased-inside" in tag:
+                j["alias"] = {"x": "alias", "y": "distinct"}
             j["seq"] = seq
             j["cap"] = 0
             j["_tag"] = tag
